@@ -244,3 +244,8 @@ def search(drv, model, diverged, lean, rng):
         f = _oracle_failures(drv, list(cases("thorough" if s == 0 else "quick", r)))
         if f: return f
     return None
+
+# L2 guard-sequence fragment (extract/gen_guards.py -> lean/Op2Model/Gen/Guards.lean; notes/l2guards.md)
+LEAN_MODULES = LEAN_MODULES + ["Op2Proofs.Props.C07_Gen"]
+PROVED = PROVED + ("; " +
+          "L2 guard fragment (Gen/Guards.lean): C07_gen_dims_refuses (the dimension guard of ReadMapBeginning regenerated from the clang AST refuses iff Map.dimsOk is false, for all uint32 lg and height), C07_gen_minVersion_refuses (CheckMinVersionTag refuses iff tag < Map.minMapVersion)")
